@@ -45,6 +45,9 @@ def plan(tier, seed):
             cases.append(dict(lane='mixture', kind=kind, cls='gauss', K=K, N=N, D=D, lead=lead, init=pick(['dirichlet:1', 'blur:0.3', 'onehot', 'num_classes']),
                               iters=iters, opts=o, gain=pick(GK), decades=float(pick([100, 100, 60, 30])), stream=stream, layout=pick(['c', 'c', 'tview', 'f']),
                               e_dtype='f32' if (kind in models.INTEGRATION and stream == 'spatial' and rng.uniform() < 0.3) else 'f64', sparse=bool(rng.uniform() < 0.25), rs=[seed, 4, i]))
+            if kind in ('cacgmm', 'cwmm') and r % 7 == 3:
+                # single precision end to end: gains as far as squares of float32 allow (|c y| up to ~1e17)
+                cases[-1].update(dtype='c64', decades=float(pick([15, 17, 17.5, 17.5])), e_dtype='f64')       # |c y|^2 D must stay below the float32 maximum 3.4e38
             i += 1
     m = S(tier, 25, 250)
     for fam in ('cacg', 'watson', 'bingham', 'vmf'):
@@ -99,7 +102,7 @@ def scaled_data(s, case, rng):
         return d, g
     real = s.kind in models.REAL
     g = gen.gains(rng, y.shape[:-1], decades=case['decades'], kind=case['gain'], real_positive=real)
-    d['y'] = y * g[..., None]
+    d['y'] = (y * g[..., None]).astype(y.dtype)          # stays in the precision of the observation
     return d, g
 
 
@@ -108,8 +111,9 @@ def run_mixture(case, R):
     rng = np.random.default_rng([*case['rs'], 99])
     kind = s.kind
     d2, g = scaled_data(s, case, rng)
-    tol_post = 1e-5 if kind == 'cbmm' else 1e-9
-    rtol_par = 1e-4 if kind == 'cbmm' else 1e-8
+    single = case.get('dtype') == 'c64'
+    tol_post = 1e-5 if kind == 'cbmm' else (2e-3 if single else 1e-9)
+    rtol_par = 1e-4 if kind == 'cbmm' else (2e-2 if single else 1e-8)
     def run(data):
         s2 = scen.Scenario(); s2.__dict__.update(s.__dict__); s2.data = data
         try:
@@ -237,6 +241,8 @@ def run_dist(case, R):
     rng = gen.rng_of(case)
     fam, D, N, lead = case['fam'], case['D'], case['N'], tuple(case['lead'])
     real = fam == 'vmf'
+    if fam == 'vmf' and case['rs'][-1] % 11 == 5:
+        N, lead = int(rng.choice([65537, 70000, 131075])), ()           # as many embeddings as a whole utterance has time-frequency points
     if real:
         y = rng.standard_normal((*lead, N, D)) + 2 * oracles.unit(rng.standard_normal((*lead, 1, D)))
     else:
